@@ -48,6 +48,8 @@ const VAULT_REAL: [&str; 5] = [
     "borrower: harness contract executing generated adversary programs (stub by design)",
 ];
 
+const MIGRATE_REAL: &str = "MIGRATE part: real pool factory + 2-4 pairs (constant product / stableswap, native and cw20), real router, real vault factory + 1-3 vaults, all at the current version; the legacy storage layout of ONE contract per run is written by the harness exactly as the contract's migration code reads it (no old contract code is executed) and the real `migrate` entry point converts it";
+
 fn pool3_part(quick: u64, thorough: u64) -> PlanPart {
     PlanPart { scen: scen::<scen::pool3::Pool3>(), quick_runs: quick, thorough_runs: thorough }
 }
@@ -184,6 +186,10 @@ pub fn plan_for(id: &str) -> Option<Plan> {
             p.parts.push(pool3_part(1200, 60_000));
             p.real.extend(VAULT_REAL);
             p.real.push("stableswap_3pool (real)");
+            // quotes of pools / routers / vaults whose state went through the `migrate` entry point from a legacy layout
+            p.parts.push(scen::migrate::migrate_part());
+            p.real.push(MIGRATE_REAL);
+            p.want_probes.extend(["pair_migrated_from_v1_2_0", "swap_vs_simulation_after_migration", "router_swap_vs_simulation_after_migration", "coins_parked_at_lp_token_address"]);
             Some(p)
         }
         "C03" => Some(pool2_plan("C03", "seeded swarm runs of POOL2 with a stableswap pair: amp in {1,2,7,10,50,85,100,400,1000,1e6}, decimals in {(6,6),(6,8),(8,6),(6,18),(18,6),(4,5)}, reserves >= one whole token and <= 2^100 base units; every Simulation / swap is compared with an independent bisection solution of the invariant on decimal-normalised reserves, every deposit/withdrawal with the exact invariant per LP; distinct = unseen (reserves, LP supply, pending fees, LP balances) after a successful step", 4000, 250_000, vec!["stable_swap_quote_checked", "stable_deposit_withdraw_completed"])),
@@ -220,7 +226,7 @@ pub fn plan_for(id: &str) -> Option<Plan> {
             want_probes: vec!["exact_repay_ok", "minus1_refused", "nested_loan_same_vault", "router_loan_exact_accounting", "enumerated_program"],
             exhaustive: true,
         }),
-        "C17" => Some(Plan {
+        "C17" => Some({ let mut p = Plan {
             property: "C17",
             level: "fault_enumeration",
             rule: "complete product {constant-product pair, stableswap pair, 3-pool, vault} x all 2^3 toggle combinations x {empty, funded} = 64 cases (run index mod 64), each executing every entry path of every operation (pair: direct provide, frontend helper, withdraw hook, native swap, cw20 swap hook, router native, router cw20; 3-pool: provide, withdraw hook, native swap, cw20 swap hook; vault: deposit, withdraw hook, flash loan direct, flash loan via vault router) under the toggles and again after re-enabling, with a run-specific amount; distinct = (case, path, amount, phase) of successful enabled operations",
@@ -230,7 +236,12 @@ pub fn plan_for(id: &str) -> Option<Plan> {
             assumptions: vec!["fee-collector aggregation as a swap entry path is exercised by the HUB scenario, not here"],
             want_probes: vec!["disabled_path_exercised", "enabled_path_succeeded"],
             exhaustive: true,
-        }),
+        };
+            // switches of vaults / pools whose state went through the `migrate` entry point from a legacy layout (sampled, not part of the enumeration)
+            p.parts.push(scen::migrate::migrate_part());
+            p.real.push(MIGRATE_REAL);
+            p.want_probes.extend(["vault_migrated_from_v1_1_3", "disabled_op_attempted_after_migration", "enabled_op_succeeded_after_migration"]);
+            p }),
         "C15" => {
             let mut p = pool2_plan("C15", RULE, 5000, 250_000, vec!["swap_rejected_for_slippage", "deposit_rejected_for_slippage", "router_rejected_min_receive", "min_receive_receiver_had_balance", "trio_swap_rejected_for_slippage"]);
             p.parts.push(pool3_part(1500, 80_000));
@@ -355,7 +366,7 @@ pub fn plan_for(id: &str) -> Option<Plan> {
                 "cw-multi-test executes messages, sub-messages, replies and rollbacks like wasmd",
             ],
         )),
-        "C19" => Some(all_plan(
+        "C19" => Some({ let mut p = all_plan(
             "C19",
             "exploration",
             false,
@@ -369,10 +380,28 @@ pub fn plan_for(id: &str) -> Option<Plan> {
                 "asset names are realistic (denoms uwhale/uusdc/uatom/uosmo, cw20 contract addresses): key collisions of concatenated asset bytes without separator need crafted names and are not generated",
                 "cw-multi-test executes messages, sub-messages, replies and rollbacks like wasmd",
             ],
-        )),
+        );
+            // registries that went through the factories' `migrate` entry points from a legacy layout
+            p.parts.push(scen::migrate::migrate_part());
+            p.real.push(MIGRATE_REAL);
+            p.want_probes.extend(["factory_migrated_from_v1_1_x", "factory_migrated_from_v1_0_x", "vault_factory_migrated_from_v1_0_9_or_below", "registry_walk_on_migrated_factory", "duplicate_pair_refused_after_migration"]);
+            p }),
         "C11" => Some(incent_plan("C11", 5000, 250_000, vec!["helper_deposit_completed", "position_for_receiver", "withdraw_paid_closed_positions", "duration_min", "duration_max", "helper_chain_fault_reverted", "flow_in_lp_asset"])),
         "C12" => Some(incent_plan("C12", 5000, 250_000, vec!["flow_native_fee_native_same", "flow_native_fee_native_diff", "flow_cw20_fee_native_diff", "flow_native_fee_cw20_diff", "flow_cw20_fee_cw20_same", "flow_cw20_fee_cw20_diff", "stranger_close_refused", "flow_closed_by_creator", "flow_closed_by_owner", "flow_expanded_by_non_creator"])),
         "C13" => Some(incent_plan("C13", 5000, 250_000, vec!["double_claim_in_epoch", "claim_paid_quote", "claim_over_several_epochs", "position_change_before_snapshot", "position_change_after_snapshot", "epoch_ge_20"])),
+        // diagnostic only (not a property, not listed in all_ids): the MIGRATE scenario alone; with this id the
+        // harness-level roundtrip checks ("MIG": raw storage / every observable identical after the migration) report
+        "MIG" => Some(Plan {
+            property: "MIG",
+            level: "exploration",
+            rule: "MIGRATE scenario alone (diagnostic)",
+            parts: vec![scen::migrate::migrate_part()],
+            real: vec![MIGRATE_REAL],
+            stubbed: STUBS.to_vec(),
+            assumptions: vec![],
+            want_probes: vec![],
+            exhaustive: false,
+        }),
         _ => None,
     }
 }
